@@ -13,6 +13,12 @@ state; every state is restored through the real constructor.  Judged by effect o
 listing under test, and the second listing, must each show what a fresh listing at its index showed - snapshots
 taken before any second object existed.  Signatures of this dimension end in |second-object=<same-file|other-family>.
 
+Derived listings (searches '<file>@k+del:j:b', k = min(N, 3)): the file with the block of one table (b-th table after
+the first) deleted from its (j+1)-th result set - a listing in which a later result set does not print a table the
+first one prints (TOUGH2 family and AUTOUGH2; found by the independent scan listkit.removable_table_blocks).  Same
+oracle: whatever the reader shows for the unprinted table at that index, it must be what a fresh listing positioned
+there shows.  Reduced cursor alphabet; signatures end in |table-not-printed-in-a-later-result-set.
+
 Oracle (the property statement):
   invariant   in every reached state the reported index, time, step, the SET of tables offered (table_names and
               the table attributes) and every table (values, row and column names) equal those of a genuinely freshly opened listing with `index = i` assigned directly
@@ -61,13 +67,17 @@ ASSUMPTIONS = ['index= is explored for the arguments a Python sequence of k resu
                'looking is an action, not part of the silent observation: what look(rows) reads through the accessors is compared '
                'with the same reads on a fresh listing at that index; a history() request for a column that does not exist may '
                'raise, but like every action it must leave the reader showing what a fresh listing at its index shows',
+               'a listing in which a later result set does not print a table that the first result set prints is a legal input '
+               '(the reader accepts it, and already copes with the mirror case of a table first printed later); what it shows for '
+               'that table there is not prescribed, only that it does not depend on the route (TOUGH+ not derived)',
                'history return values are not judged here (C06 does); only that the call returns and leaves the '
                'reader showing what it showed',
                'non-termination = more than 20 x lines x (result sets + 2) readline calls in one library call, or '
                'more than 4 x lines + 1000 consecutive reads at end of file']
-BOUNDS = {'quick': {'second_object_searches': 'every file cut to 2 result times; one second object per path', 'state_cap': '20 x result times + 60 states per search (never reached on the unchanged tree)', 'files': 'shipped listings with >= 2 result times and size < 300 kB, plus those < 500 kB that mix short and full result sets or whose set of printed tables changes between result times',
+BOUNDS = {'quick': {'derived_listings': 'file cut to min(N,3) result times, each later table block deleted from the 2nd result set', 'second_object_searches': 'every file cut to 2 result times; one second object per path', 'state_cap': '20 x result times + 60 states per search (never reached on the unchanged tree)', 'files': 'shipped listings with >= 2 result times and size < 300 kB, plus those < 500 kB that mix short and full result sets or whose set of printed tables changes between result times',
                     'truncations': 'all k in 1..N for N <= 6, otherwise k in {1, 2, N}', 'depth': 'to closure'},
-          'thorough': {'second_object_searches': 'every file cut to 2 and to 3 result times; one second object per path',
+          'thorough': {'derived_listings': 'file cut to min(N,3) result times, each later table block deleted from the 2nd and from the last result set',
+                       'second_object_searches': 'every file cut to 2 and to 3 result times; one second object per path',
                        'state_cap': '20 x result times + 60 states per search (never reached on the unchanged tree)',
                        'files': 'all shipped listings with >= 2 result times',
                        'truncations': 'all k in 1..N for N <= 6, otherwise k in {1, 2, N-1, N}', 'depth': 'to closure'}}
